@@ -336,6 +336,15 @@ func c15Multi(c *mon.Ctx, r *mon.Rand) {
 		sinks = append(sinks, s)
 		addrs = append(addrs, s.Addr())
 	}
+	// one third of the runs: one more destination is a dead port (every second
+	// send to it fails). The live destinations must still receive every message
+	// complete and alone, however much is sent after the first failure.
+	dead := r.Chance(1, 3)
+	if dead {
+		at := r.Intn(len(addrs) + 1)
+		addrs = append(addrs[:at], append([]string{mon.DeadPort()}, addrs[at:]...)...)
+		c.Class("multi-runs-with-one-dead-destination", 1)
+	}
 	tr, err := thriftudp.NewTMultiUDPClientTransport(addrs, "")
 	if err != nil {
 		c.Inconclusive("multi transport: " + err.Error())
@@ -344,12 +353,15 @@ func c15Multi(c *mon.Ctx, r *mon.Rand) {
 	c.Eval(1)
 	var want [][]byte
 	var cur []byte
-	desc := map[string]interface{}{"destinations": n}
+	desc := map[string]interface{}{"destinations": n, "plus_one_dead_destination": dead}
 	c.Guard("panic-multi-transport", func() interface{} { return desc }, func() {
 		k := r.Range(1, 20)
+		if dead {
+			k = r.Range(20, 80)
+		}
 		for i := 0; i < k; i++ {
 			if r.Chance(1, 3) {
-				if err := tr.Flush(); err != nil {
+				if err := tr.Flush(); err != nil && !dead {
 					c.Violation("multi-flush-error", map[string]interface{}{"why": err.Error(), "case": desc})
 				}
 				want = append(want, cur)
@@ -357,7 +369,7 @@ func c15Multi(c *mon.Ctx, r *mon.Rand) {
 				continue
 			}
 			p := []byte(fmt.Sprintf("msg-%d-%d;", i, r.Intn(1000)))
-			if r.Chance(1, 8) && len(cur) < 30000 {
+			if (r.Chance(1, 8) || dead && r.Chance(1, 3)) && len(cur) < 30000 {
 				p = bytes.Repeat([]byte{byte(i)}, r.Range(1000, 30000))
 			}
 			if _, err := tr.Write(p); err != nil {
